@@ -71,6 +71,10 @@ def worker_main(argv):
     from . import covmon
 
     cov_on = covmon.start(os.path.join(REPO, "src"))
+    if specs[idx].get("optimized"):
+        rec.count("shards_run_in_an_interpreter_started_with_dash_O")
+        if sys.flags.optimize < 1:
+            rec.inconc("shard %d was to run under -O but sys.flags.optimize is %d" % (idx, sys.flags.optimize))
     try:
         mod.run_shard(specs[idx], rec)
     except Exception:
@@ -99,9 +103,10 @@ def run_shards(pid, tier, seed, specs, workdir):
         while pending and len(running) < NPROC:
             i = pending.pop(0)
             log = open(os.path.join(workdir, "shard%d.log" % i), "w")
+            opt = bool(specs[i].get("optimized"))
             p = subprocess.Popen(
-                [PY, "-m", "vf.run", "--worker", pid, tier, str(seed), workdir, str(i)],
-                stdout=log, stderr=subprocess.STDOUT, env=env, cwd=VERIF, start_new_session=True,
+                [PY] + (["-O"] if opt else []) + ["-m", "vf.run", "--worker", pid, tier, str(seed), workdir, str(i)],
+                stdout=log, stderr=subprocess.STDOUT, env=dict(env, PYTHONOPTIMIZE="1") if opt else env, cwd=VERIF, start_new_session=True,
             )
             running[i] = (p, time.time(), specs[i].get("timeout", default_to), log)
         time.sleep(0.05)
@@ -159,6 +164,11 @@ def main(argv=None):
     shutil.rmtree(workdir, ignore_errors=True)
     os.makedirs(workdir)
     specs = mod.plan(tier, seed)
+    # the same workload in an interpreter started with -O (assert statements and `if __debug__:` blocks are compiled away; child
+    # processes inherit PYTHONOPTIMIZE=1): a module names how many of its leading / trailing shards are run once more that way
+    nh, nt = int(getattr(mod, "OPTIMIZED_SHARDS", 0)), int(getattr(mod, "OPTIMIZED_TAIL", 0))
+    dup = [dict(s, optimized=True) for s in specs[:nh]] + ([dict(s, optimized=True) for s in specs[len(specs) - nt:]] if nt else [])
+    specs = specs + dup
     if getattr(mod, "SUITE_TESTS", None) and (tier == "thorough" or os.environ.get("VERIF_SUITE") == "1"):
         # the repository's own tests as one more monitored workload
         specs.append({"suite": list(mod.SUITE_TESTS), "timeout": 3600})
